@@ -725,8 +725,9 @@ func (e *Exec) callByContract(st *State, c *FuncContract, callee *ssa.Function, 
 		if strings.Contains(cl.Expr, "$T") || strings.Contains(cl.Expr, "$E") {
 			continue
 		}
-		if strictTags && e.eng.curProp != "" && len(cl.Props) > 0 && !hasPropTag(cl.Props, e.eng.curProp) {
-			// a postcondition tagged for other properties only is not proved in this run: not relied on
+		if e.eng.curProp != "" && hasProp(c.Props, e.eng.curProp) && !hasPropTag(cl.Props, e.eng.curProp) {
+			// the callee is verified in this run, but not this postcondition (it is tagged for other
+			// properties only): the run does not rely on what it does not prove about the functions in its scope
 			continue
 		}
 		x := mk(st, pre)
@@ -770,8 +771,6 @@ func (e *Exec) callByContract(st *State, c *FuncContract, callee *ssa.Function, 
 	}
 	return true, nil
 }
-
-var strictTags = os.Getenv("GOVC_STRICT_TAGS") != ""
 
 // hasPropTag: the clause's tags name the property (variant tags, which start with @, are not property tags;
 // a clause with variant tags only belongs to every property of its function)
